@@ -1,19 +1,12 @@
-(* C02 — StepMania reading.  Property theorems only. *)
+(* C02 — StepMania reading.  Property theorems only: each is closed by [exact] from Proofs/SMProofs.v, or by
+   vm_compute for obligations on the tables regenerated from the live classes. *)
 From Coq Require Import String ZArith QArith Qround Qabs List Bool.
-From RV Require Import Base.PyNum Timing.Snapper Timing.Snap Timing.TimingMap Timing.Integrate
-  Formats.SMText Formats.SM Formats.SMSpec Generated.Tables.
+From RV Require Import Base.PyNum Timing.Snapper Timing.Snap Timing.TimingMap Timing.Reseat Timing.Integrate
+  Formats.SMText Formats.SM Formats.SMSpec Generated.Tables Proofs.SMWitness Proofs.SMProofs.
 Import ListNotations.
 Open Scope Q_scope.
 
-Definition live_conf : smconf :=
-  mkConf Tables.sm.hit_string Tables.sm.hold_string_head Tables.sm.hold_string_tail Tables.sm.roll_string_head
-         Tables.sm.roll_string_tail Tables.sm.mine_string Tables.sm.lift_string Tables.sm.fake_string
-         Tables.sm.keysound_string Tables.sm.metronome Tables.sm.max_snap Tables.sm.max_keys
-         Tables.sm.chart_keys Tables.snapper_table.
-
-(* Table obligations, re-checked against the tables regenerated from the live classes on every run:
-   the note symbols, METRONOME, MAX_SNAP, MAX_KEYS are the reference format constants; the chart types with a
-   declared key count are exactly the reference ones; Python's whitespace set is the pinned one. *)
+(* ---- table obligations (re-checked on every run against the live SMConst / SMMap / SMMapChartTypes / str.isspace) ---- *)
 Theorem C02_constants_are_reference :
   live_conf = ref_conf Tables.snapper_table Tables.sm.chart_keys.
 Proof. vm_compute. reflexivity. Qed.
@@ -25,3 +18,92 @@ Proof. vm_compute. reflexivity. Qed.
 
 Theorem C02_whitespace_is_reference : Tables.sm.py_whitespace = py_ws.
 Proof. vm_compute. reflexivity. Qed.
+
+Theorem C02_tail_symbol_distinct :
+  (k_roll_tail live_conf =? k_hit live_conf)%Z = false /\ (k_roll_tail live_conf =? k_mine live_conf)%Z = false /\
+  (k_roll_tail live_conf =? k_hold_head live_conf)%Z = false /\ (k_roll_tail live_conf =? k_roll_head live_conf)%Z = false.
+Proof. vm_compute. auto. Qed.
+
+Theorem C02_metronome_is_4 : k_metronome live_conf = 4%Z.
+Proof. vm_compute. reflexivity. Qed.
+
+(* ---- slicing: in a measure of n = 4k rows, beat b gets rows [bk, (b+1)k), the four slices are the measure in order,
+   row j of beat b is row bk+j of the measure, and its Snap beat b + Fraction(j,k) is 4(bk+j)/n ---- *)
+Theorem C02_slice_row_beat : forall k b j : Z, (0 < k)%Z ->
+  inject_Z b + inject_Z j / inject_Z k == 4 * inject_Z (b * k + j) / inject_Z (4 * k).
+Proof. exact slice_row_beat_arith. Qed.
+
+Theorem C02_slices_partition : forall (rows : list text) (k : Z),
+  (0 <= k)%Z -> Z.of_nat (length rows) = (4 * k)%Z ->
+  beat_slice live_conf rows 0 ++ beat_slice live_conf rows 1 ++ beat_slice live_conf rows 2 ++ beat_slice live_conf rows 3 = rows.
+Proof. exact (slices_partition live_conf C02_metronome_is_4). Qed.
+
+Theorem C02_slice_row_index : forall (rows : list text) (k b : Z) (j : nat),
+  (0 <= k)%Z -> (0 <= b)%Z -> Z.of_nat (length rows) = (4 * k)%Z -> (j < Z.to_nat k)%nat ->
+  nth_error (beat_slice live_conf rows b) j = nth_error rows (Z.to_nat (b * k) + j).
+Proof. exact (slice_row_index live_conf C02_metronome_is_4). Qed.
+
+(* ---- head/tail pairing: a '3' closes the open hold head of its column if there is one, else the open roll head,
+   else the read fails; with one head open per column (the format's rule) that is "3 closes the open head" ---- *)
+Theorem C02_tail_closes_open_head : forall (st : nst) (so : snap) (col : nat) (hl rl : list hentry),
+  nth_error (n_holds st) col = Some hl -> nth_error (n_rolls st) col = Some rl ->
+  read_char live_conf st so col (k_roll_tail live_conf) =
+    if is_open hl then Some (mkNst (n_simple st) (replace_at col (close_last hl so) (n_holds st)) (n_rolls st))
+    else if is_open rl then Some (mkNst (n_simple st) (n_holds st) (replace_at col (close_last rl so) (n_rolls st)))
+    else None.
+Proof. exact (tail_closes_open_head live_conf C02_tail_symbol_distinct). Qed.
+
+Theorem C02_tail_pairs_the_open_head : forall (st : nst) (so : snap) (col : nat) (pre : list hentry) (h : snap) (rl : list hentry),
+  nth_error (n_holds st) col = Some (pre ++ [(h, None)]) -> nth_error (n_rolls st) col = Some rl ->
+  read_char live_conf st so col (k_roll_tail live_conf)
+  = Some (mkNst (n_simple st) (replace_at col (pre ++ [(h, Some so)]) (n_holds st)) (n_rolls st)).
+Proof. exact (tail_pairs_the_open_head live_conf C02_tail_symbol_distinct). Qed.
+
+(* ---- every chart of the file is returned, in file order, each read from its own #NOTES token ---- *)
+Theorem C02_sm_read_all_charts : forall (v : variant) (txt : text) (s : smset),
+  sm_read live_conf v txt = Some s ->
+  let toks := filter (contains (tx "#NOTES:")) (map strip (split_on 59 txt)) in
+  length (s_maps s) = length toks /\
+  forall i tok, nth_error toks i = Some tok ->
+    exists c st, nth_error (s_maps s) i = Some c /\
+                 read_chart live_conf tok (m_offset st) (m_bcs st) (m_stops st) = Some c /\
+                 s_offset s = m_offset st.
+Proof. exact (sm_read_all_charts live_conf). Qed.
+
+(* ---- sm_read_denotes, PARTIAL.  Full statement (not proved for all texts):
+       forall txt d, sm_denote txt = Some d -> c02_dom d = true -> dialect_ok txt d = true -> has_stops_tag d = true ->
+         exists s, sm_read live_conf pinned txt = Some s /\ read_spec 0 d s = true.
+   Proved: the row-placement core of it (the three slicing theorems and the pairing theorems above) and the chart
+   enumeration; missing: the token-level equivalence of the two parsers on the dialect and the step from the C10
+   theorem offsets_integrate to the per-object times.  The full statement is evaluated in Coq on every generated text
+   of every run (Corr/RunC02.v: model = implementation, and read_spec on the implementation's result). ---- *)
+Theorem C02_sm_read_denotes_partial : forall (rows : list text) (k b : Z) (j : nat),
+  (0 < k)%Z -> (0 <= b)%Z -> Z.of_nat (length rows) = (4 * k)%Z -> (j < Z.to_nat k)%nat ->
+  nth_error (beat_slice live_conf rows b) j = nth_error rows (Z.to_nat (b * k) + j) /\
+  inject_Z b + inject_Z (Z.of_nat j) / inject_Z k == 4 * inject_Z (b * k + Z.of_nat j) / inject_Z (4 * k).
+Proof.
+  exact (fun rows k b j Hk Hb Hl Hj =>
+           conj (slice_row_index live_conf C02_metronome_is_4 rows k b j (Z.lt_le_incl _ _ Hk) Hb Hl Hj)
+                (slice_row_beat_arith k b (Z.of_nat j) Hk)).
+Qed.
+
+(* ---- defect of the pinned tree: a text without a #STOPS tag is not read (AttributeError); with the proposed repair
+   (stops defaults to an empty list) it is read and denotes what the format says ---- *)
+Theorem C02_sm_read_refuted_no_stops_tag :
+  exists txt, in_c02_domain txt = true /\ sm_read live_conf pinned txt = None.
+Proof. exact sm_read_refuted_no_stops_tag. Qed.
+
+Theorem C02_sm_read_no_stops_tag_repaired :
+  match sm_denote w_read_txt, sm_read live_conf repaired w_read_txt with
+  | Some d, Some s => read_spec 0 d s
+  | _, _ => false end = true.
+Proof. exact sm_read_no_stops_tag_repaired. Qed.
+
+(* non-vacuity: a text in the domain (comments, mid-measure tempo change, hold and roll across measures, a mine)
+   that the pinned reader reads and whose result is exactly the denotation *)
+Example C02_example_in_domain :
+  in_c02_domain w_read_txt2 = true /\
+  match sm_denote w_read_txt2, sm_read live_conf pinned w_read_txt2 with
+  | Some d, Some s => read_spec 0 d s && negb (length (d_tempo d) <? 2)%nat && negb (length (flat_map d_notes (d_charts d)) <? 4)%nat
+  | _, _ => false end = true.
+Proof. exact sm_read_example. Qed.
